@@ -527,11 +527,20 @@ func TestC23(t *testing.T) {
 			)
 		}
 		var scs []e1lib.Scenario
-		for _, p := range ps {
+		deep := map[string]bool{"GetBlock(b)|S,b,D": true, "GetBlock(b)|S,X": true, "GetBlockRange(b)|S,b,s,D": true, "GetBlockRange(b)|S,X": true}
+		for i, p := range ps {
 			s := scenario(p)
+			// quick: the 12 design scenarios (6 batch shapes x 2 APIs) with <=2 deviations, the rest <=1
 			s.MinB, s.MaxB, s.Budget = 1, 1, 40*time.Second
+			if i < 12 {
+				s.MaxB = 2
+			}
 			if thorough {
-				s.MinB, s.MaxB, s.Budget = 2, 2, 8*time.Minute
+				s.MinB, s.MaxB, s.Budget = 2, 2, 5*time.Minute
+				if deep[s.Name] {
+					// as far into bound 3 as the budget allows; bound 2 is what is claimed
+					s.MaxB = 3
+				}
 			}
 			scs = append(scs, s)
 		}
